@@ -152,6 +152,15 @@ def fam_c04(tier, rng):
                     job["defer_by_ms"] = rec_
                 scs.append(default_scenario(jobs=[job], actors={"job": {"variant": "dep", "policy": ["linear", 100]}},
                                             worker={"tasks_limit": 1, "messages_limit": 0, "grace_s": 0.5}, horizon_ms=9000))
+    # attempts that fail before the body is reached (a payload the converter refuses): counted and bounded like any other failure
+    for conv in ("basic", "pydantic"):
+        for mx in (0, 1, 3):
+            for pol in (["const", 0], ["linear", 100]):
+                scs.append(default_scenario(
+                    jobs=[{"id": "j", "actor": "job", "script": ["ok"], "retries": mx, "args": {"unexpected": 1}, "must_run": False},
+                          {"id": "s", "actor": "job", "script": ["ok"], "at_ms": 900}],
+                    actors={"job": {"variant": "plain", "policy": pol}}, converter=conv,
+                    worker={"tasks_limit": 2, "messages_limit": 0, "grace_s": 0.5}, horizon_ms=5000, deadline_ms=4500))
     return scs
 
 
@@ -250,6 +259,8 @@ def fam_c11(tier, rng):
                          "must_run": mine, "foreign": not mine})
             if not mine and rng.random() < 0.3:
                 jobs[-1]["ttl_ms"] = rng.choice([1000, 2500])     # a foreign message that expires while it waits: still not this worker's business
+            if n % 3 == 0 and not jobs[-1]["at_ms"]:
+                jobs[-1]["deferred_until_ms"] = 400                # own and foreign jobs that fall due at the very same instant
         scs.append(default_scenario(jobs=jobs, actors=actors, worker={"tasks_limit": rng.choice([1, 3]), "messages_limit": 0, "grace_s": 0.5},
                                     horizon_ms=6000, deadline_ms=5000))
     return scs
